@@ -322,6 +322,28 @@ def full_section_battery(opfmt):
     return out
 
 
+def wide_line_bounds_battery(opfmt):
+    """lines WIDER than a kilobyte (a scan that treats wide lines differently from narrow ones, or steps over a
+    line by the wrong width): payloads around 1022 .. 5000 bytes filled with 00, with EE and with FF, two sections,
+    every kind of bound inside a section"""
+    out = []
+    for p in (1021, 1022, 1023, 1024, 2000, 5000):
+        for fill in (0x00, 0xEE, 0xFF):
+            h = Hist(p)
+            h.new()
+            T0 = 5000
+            for i in range(12):
+                h.push(T0 + 10 * i, pl=bytes([fill]) * p)
+            for i in range(4):
+                h.push(T0 + 200000 + 10 * i, pl=bytes([fill ^ 0x5A]) * p)
+            for s_, e_ in (("I:%d" % T0, "I:%d" % (T0 + 43)), ("I:%d" % (T0 + 20), "I:%d" % (T0 + 70)), ("I:%d" % (T0 + 20), "E:%d" % (T0 + 70)),
+                           ("U", "I:%d" % (T0 + 55)), ("E:%d" % (T0 + 10), "E:%d" % (T0 + 110)), ("I:%d" % (T0 + 100), "I:%d" % (T0 + 200015)),
+                           ("U", "E:%d" % (T0 + 200020)), ("I:%d" % (T0 + 35), "U")):
+                h.op(opfmt.format(s=s_, e=e_))
+            out.append((f"wide-lines-p{p}-{fill:02x}", h.script()))
+    return out
+
+
 def gen_range_reads(rng, tier, opfmt, payloads=None, extra_n=None):
     """histories with gaps; bound pairs from the critical values of each history"""
     out = []
@@ -408,6 +430,7 @@ def gen_range_reads(rng, tier, opfmt, payloads=None, extra_n=None):
         for (ks, a, ke, b) in pairs:
             h.op(opfmt.format(s=bound(ks, a), e=bound(ke, b)))
         out.append(("rand", h.script()))
+    out += wide_line_bounds_battery(opfmt)      # last: callers that take a prefix of the list keep what they had
     return out
 
 
@@ -443,6 +466,7 @@ def gen_C14(rng, tier):
     # where both the count and the read are asked for (cursor battery) the read is judged as well
     return (full_section_battery("n_lines s={s} e={e}") + gen_range_reads(rng, tier, "n_lines s={s} e={e}")
             + extreme_bounds_battery(["n_lines s={s} e={e}", "read_all s={s} e={e}"])
+            + reader_buffer_end_battery(tier, ["n_lines s=U e=U", "read_all s=U e=U", "n_lines s=I:1004 e=U", "read_all s=I:1004 e=U"])
             + cursor_alias_battery(tier, lambda T1, T2, L: [f"n_lines s=I:{T2} e=U", f"read_all s=I:{T2} e=U",
                                                               f"n_lines s=I:{T2 - 5} e=I:{L - 2}", f"read_all s=I:{T2 - 5} e=I:{L - 2}"]))
 
